@@ -123,6 +123,7 @@ def sibling(r, name):
 def gen_tables(r, external=False, deep=False):
     ntab = r.randint(1, 3) if not deep else r.randint(1, 5)
     shared_names = r.random() < 0.3       # the same column names in every table
+    tail_names = (not shared_names) and r.random() < 0.25   # each column name is the tail of the previous one
     tables = []
     enum_used = False
     for t in range(ntab):
@@ -131,6 +132,8 @@ def gen_tables(r, external=False, deep=False):
         for c in range(ncol):
             kind = r.choice(['i2', 'i4', 'i8', 'f4', 'f8', 'S', 'S', 'E'])
             col = {'name': ('c%d%dq' % (t, c)) if not shared_names else ('cs%dq' % c), 'kind': kind}
+            if tail_names:
+                col['name'] = 'zyxwvuts'[c:] + 'c%dq' % t     # 'yxwvutsc0q' is the tail of 'zyxwvutsc0q' ...
             if kind == 'E':
                 if enum_used:
                     col['kind'] = kind = 'i4'
@@ -177,7 +180,7 @@ def generate(seed, tier='quick'):
     if r.random() < 0.1:
         clock['start'] = r.choice([1798761599.0, 1830297599.5, 951868799.0, 4102444799.0, 253402300700.0])
     tables = gen_tables(r, external=start.startswith('external'), deep=(tier == 'thorough'))
-    hdr = [['k%dw' % i, rstr(r, 6, header=True)] for i in range(r.randint(0, 4))]
+    hdr = [['k%dw' % (7 - i), rstr(r, 6, header=True)] for i in range(r.randint(0, 4))]   # not in sorted order
     if r.random() < 0.05:
         hdr.append([r.choice(['enum', 'struct', 'c00q', 'TB0', 'filename']), rstr(r, 6, header=True)])
     comments0 = r.choice(COMMENTS)
